@@ -8,14 +8,15 @@ from ..frontend import extract
 from . import smt
 from .ops import Ops, NativeMethod, has_sym, NotImpl
 from .values import (Sym, SInt, SBool, SVal, SKey, SSeq, SView, SMap, SObj, ClassRef, Closure, BoundMethod,
-                     Builtin, AbstractCallable, PyExc, OutOfSubset, EXC_BASES)
+                     Builtin, AbstractCallable, PyExc, OutOfSubset, EXC_BASES, LazyDict, unmap)
 
 
 class LoopSpec(object):
     """Sidecar loop contract: inv(it, env, i, seq) -> z3 Bool; havoc(it, env) re-binds the variables the
     body modifies to fresh symbols; variant(it, env) -> z3 Int (while loops)."""
 
-    def __init__(self, inv, havoc=None, variant=None, unfold=None):
+    def __init__(self, inv, havoc=None, variant=None, unfold=None, enter=None):
+        self.enter = enter        # enter(it, env): snapshot ghost state when the loop is reached
         self.inv = inv
         self.havoc = havoc or (lambda it, env: None)
         self.variant = variant
@@ -394,7 +395,7 @@ class World(object):
 
         @reg('len')
         def _len(it, args, kw):
-            v = args[0]
+            v = unmap(args[0])
             if isinstance(v, (SSeq, SView)):
                 return it.wrap(v.length)
             if isinstance(v, SMap):
@@ -501,7 +502,7 @@ class World(object):
 
         @reg('dict')
         def _dict(it, args, kw):
-            d = {}
+            d = LazyDict()
             if args:
                 src = args[0]
                 if isinstance(src, dict):
